@@ -23,24 +23,9 @@
 //! One case per line: `<stream> <id> <input…> => <implementation output…>`.
 #![allow(dead_code, unused_imports, unused_variables, clippy::all)]
 
-#[path = "/repo/dropshot_endpoint/src/api_trait.rs"]
-mod api_trait;
-#[path = "/repo/dropshot_endpoint/src/channel.rs"]
-mod channel;
-#[path = "/repo/dropshot_endpoint/src/doc.rs"]
-mod doc;
-#[path = "/repo/dropshot_endpoint/src/endpoint.rs"]
-mod endpoint;
-#[path = "/repo/dropshot_endpoint/src/error_store.rs"]
-mod error_store;
-#[path = "/repo/dropshot_endpoint/src/metadata.rs"]
-mod metadata;
-#[path = "/repo/dropshot_endpoint/src/params.rs"]
-mod params;
-#[path = "/repo/dropshot_endpoint/src/syn_parsing.rs"]
-mod syn_parsing;
-#[path = "/repo/dropshot_endpoint/src/util.rs"]
-mod util;
+// `#[path = "<checkout>/dropshot_endpoint/src/<m>.rs"] mod <m>;` for the nine modules,
+// written by build.rs (checkout = /repo, or VERIF_REPO when a seeded change is tried)
+include!(concat!(env!("OUT_DIR"), "/macrosrc.rs"));
 
 #[path = "../c19_programs.rs"]
 mod programs;
